@@ -31,7 +31,15 @@
 //!   `Finished` (`resend_after_finished`); up to 3 INVITEs. The peer answers each INVITE with a history of its own and
 //!   RE-USES its To-tags (same tag family). The `Early` objects of the failed INVITE that reported `Terminated` are
 //!   dropped or kept around unpolled (`hold_terminated`); those the application has not even started to poll
-//!   (`early_lag`) stay alive into the next INVITE.
+//!   (`early_lag`) stay alive into the next INVITE,
+//! * how long the TRANSPORT's `send` of an INVITE stays pending (`send_pending`: 0 in 60 % of the random cases, else 2 /
+//!   30 / 470 / 1203 ms): the bytes of the first transmission of every INVITE (also of the re-sent ones) are on the wire
+//!   at once, but the transport reports the write as done only `send_pending` ms later, so `Initiator::send_invite`
+//!   returns late. The peer's gaps count from the moment the bytes are out: every response with a cumulative gap below
+//!   `send_pending` (1, 2, ... all of them: 100, 18x of new / known forks, 2xx, the failure) is handed to the endpoint
+//!   while `send_invite` has not returned. The application calls `receive` as soon as `send_invite` is back.
+//!   Retransmissions of the INVITE and the ACK of a failure are written without delay (they are sent from inside
+//!   `receive`; how long they take would shift the moments the reference predicts, and is not what C13 is about).
 //! Sub-checks: `exhaustive` = every history of length <= 4 (thorough 5) over {100,180,200,486} x {no tag,t0,t1},
 //! UDP, continuous polling; `exhaustive-variants` = every history of length <= 3 (thorough 4) over the same alphabet
 //! under each of: case-variant tags, prefix tags, 33 s busy after every / only the first / only the second response,
@@ -45,10 +53,15 @@
 //! before the enumerated one; `rejected-then-same-fork` = one of 3 preludes (nothing / 100 / 180 t1) + a t0 response
 //! that cannot create its dialog (180 without Contact / 183 with unparsable Contact / 200 without Contact) + every
 //! continuation of length <= 2 (thorough 3) over the alphabet extended by a Contact-less 180 t0, x 3 application
-//! variants, the application going on after the error; `random` = sampled histories with all dimensions.
+//! variants, the application going on after the error; `answered-while-sending` = every history of length <= 3
+//! (thorough 4) over the alphabet (arrivals 1, 21, 22, 42 ms after the INVITE is out) x send pending 2 ms UDP / 30 ms
+//! UDP / 30 ms reliable / 470 ms reliable + 600 ms busy (`retry` has a variant with 30 ms for every INVITE as well);
+//! `random` = sampled histories with all dimensions.
 //!
 //! **Oracle.** A reference classifier replays the history in arrival order (the transaction's queue is FIFO) with
-//! the set of tags seen so far and the application's ready time R: response i is classified at d_i = max(arrival_i, R)
+//! the set of tags seen so far and the application's ready time R (initially the moment `send_invite` returns = the
+//! INVITE's appearance in the wire log + `send_pending`; a response that arrived before that waits like one that
+//! arrives while the application is busy, it is NOT lost): response i is classified at d_i = max(arrival_i, R)
 //! as 100 -> Provisional; 101-199 new tag -> new early dialog, known tag -> forwarded to exactly that early dialog;
 //! 2xx -> session (through the early dialog of its tag if there is one) whose Call-ID / local tag come from the INVITE
 //! and whose remote tag (byte-exact), remote target and route set come from THAT response; first 3xx-6xx -> Failure,
@@ -83,7 +96,8 @@
 //! whether / how long the initiator waits for a not yet polled early dialog (only: nothing is lost, and it goes on
 //! when that `Early` is polled at the latest); an application that drops an `Early` before it yielded a session or
 //! `Terminated`, polls it with pauses between the events, or polls it again after `Terminated`; a further INVITE
-//! after one that yielded a session or has not been answered finally; the CSeq / branch of the re-sent INVITE.
+//! after one that yielded a session or has not been answered finally; the CSeq / branch of the re-sent INVITE; slow
+//! retransmissions / ACKs; whether the INVITE is retransmitted although it was answered while its send was pending.
 //!
 //! **Found with the lazily polled histories and repaired** (known_findings.txt, fix d9580d2): behind a 3xx-6xx that
 //! follows a 2xx the failure empties `early_list`, a further 18x of a tag that had an early dialog created a second
@@ -174,6 +188,12 @@ pub struct AppCase {
     /// dropping them
     #[serde(default)]
     pub hold_terminated: bool,
+    /// the transport's `send` of the FIRST transmission of every INVITE stays pending for this many ms after the bytes
+    /// are on the wire (the socket reports the write as done late); `Initiator::send_invite` returns only then, the
+    /// peer's gaps count from the moment the bytes are out, so a response with a cumulative gap below this value is
+    /// handed to the endpoint while `send_invite` has not returned yet (0 / missing = `send` returns at once)
+    #[serde(default)]
+    pub send_pending: u64,
 }
 
 impl AppCase {
@@ -193,6 +213,7 @@ impl AppCase {
             next: vec![],
             resend_after_finished: false,
             hold_terminated: false,
+            send_pending: 0,
         }
     }
     /// the histories of all INVITEs, in the order they are sent
@@ -439,7 +460,36 @@ pub fn strategy() -> BoxedStrategy<AppCase> {
             let first = histories.remove(0);
             AppCase { tags, busy, reliable, early_lag, go_on_after_error, next: histories, resend_after_finished, hold_terminated, ..AppCase::bare(first, rng) }
         });
-    prop_oneof![6 => general, 2 => chatty, 2 => shaky, 5 => retry].boxed()
+    // 40 % of the cases over a transport whose `send` of an INVITE stays pending while the peer already answers
+    (prop_oneof![6 => general, 2 => chatty, 2 => shaky, 5 => retry], send_pending_strategy())
+        .prop_map(|(mut c, send_pending)| {
+            c.send_pending = send_pending;
+            c
+        })
+        .boxed()
+}
+
+/// how long the transport's `send` of an INVITE stays pending after the bytes are out: not at all, or longer than one
+/// / two / three / four of the peer's shortest gaps (1, 20, 450, 700 ms)
+fn send_pending_strategy() -> BoxedStrategy<u64> {
+    prop_oneof![6 => Just(0u64), 1 => Just(2u64), 1 => Just(30u64), 1 => Just(470u64), 1 => Just(1_203u64)].boxed()
+}
+
+/// The peer answers while the transport's `send` of the INVITE is still pending (`send_invite` has not returned):
+/// every history of length <= 3 (thorough 4) over the reduced alphabet (arrivals 1, 21, 22, 42 ms after the INVITE is
+/// out) x 4 variants: send pending 2 ms (the first response arrives meanwhile) / 30 ms (the first three) on UDP, 30 ms
+/// on a reliable transport, 470 ms (all of them) on a reliable transport with an application that is busy 600 ms
+/// after every response.
+pub fn during_send_cases(tier: Tier) -> Vec<AppCase> {
+    let max_len = tier.pick(3usize, 4usize);
+    let mut out = vec![];
+    for c in histories(max_len) {
+        let n = c.responses.len();
+        for (send_pending, reliable, busy) in [(2u64, false, vec![]), (30, false, vec![]), (30, true, vec![]), (470, true, vec![600u64; n])] {
+            out.push(AppCase { send_pending, reliable, busy, go_on_after_error: true, ..AppCase::bare(c.responses.clone(), c.rng) });
+        }
+    }
+    out
 }
 
 /// the reduced alphabet: codes 100,180,200,486 x tags none,#0,#1 (a 100 has no tag), every response with Contact
@@ -609,19 +659,21 @@ pub fn retry_cases(tier: Tier) -> Vec<AppCase> {
                 let mut first = prelude.clone();
                 first.push(*failure);
                 let n = first.len() + last.responses.len();
-                // (resend after Finished, hold terminated, reliable, early_lag, busy)
-                let variants: Vec<(bool, bool, bool, Vec<u64>, Vec<u64>)> = vec![
-                    (false, false, false, vec![], vec![]),
-                    (false, true, false, vec![], vec![]),
-                    (true, false, false, vec![], vec![]),
-                    (false, false, false, vec![33_017; 3], vec![]),
-                    (false, true, true, vec![], vec![600; n]),
+                // (resend after Finished, hold terminated, reliable, early_lag, busy, send of every INVITE pending)
+                let variants: Vec<(bool, bool, bool, Vec<u64>, Vec<u64>, u64)> = vec![
+                    (false, false, false, vec![], vec![], 0),
+                    (false, true, false, vec![], vec![], 0),
+                    (true, false, false, vec![], vec![], 0),
+                    (false, false, false, vec![33_017; 3], vec![], 0),
+                    (false, true, true, vec![], vec![600; n], 0),
+                    (false, false, pi % 2 == 1, vec![], vec![], 30),
                 ];
-                for (resend_after_finished, hold_terminated, reliable, early_lag, busy) in variants {
+                for (resend_after_finished, hold_terminated, reliable, early_lag, busy, send_pending) in variants {
                     out.push(AppCase {
                         busy,
                         reliable,
                         early_lag,
+                        send_pending,
                         go_on_after_error: true,
                         next: vec![last.responses.clone()],
                         resend_after_finished,
@@ -832,6 +884,63 @@ fn invites_on(log: &WireLog) -> Vec<(u64, WireMsg)> {
     out
 }
 
+/// A datagram transport writing to the world's wire log like `MockDatagram`, whose `send` of the FIRST transmission of
+/// every INVITE transaction (a Via branch not seen before) stays pending for `pending_ms` of virtual time after the
+/// bytes are out: the socket reports the write as done late, the peer already has the request. Retransmissions and
+/// ACKs return at once (they are sent from inside `receive`; how long they take is the subject of C05, not of the
+/// classification of responses).
+struct PendingSendTp {
+    name: &'static str,
+    reliable: bool,
+    bound: SocketAddr,
+    log: WireLog,
+    pending_ms: u64,
+    seen: Mutex<BTreeSet<String>>,
+}
+
+impl std::fmt::Debug for PendingSendTp {
+    fn fmt(&self, f: &mut std::fmt::Formatter<'_>) -> std::fmt::Result {
+        write!(f, "PendingSendTp({} {})", self.name, self.bound)
+    }
+}
+impl std::fmt::Display for PendingSendTp {
+    fn fmt(&self, f: &mut std::fmt::Formatter<'_>) -> std::fmt::Result {
+        write!(f, "mock:{}:{}", self.name, self.bound)
+    }
+}
+
+#[async_trait::async_trait]
+impl sip_core::transport::Transport for PendingSendTp {
+    fn name(&self) -> &'static str {
+        self.name
+    }
+    fn secure(&self) -> bool {
+        false
+    }
+    fn reliable(&self) -> bool {
+        self.reliable
+    }
+    fn bound(&self) -> SocketAddr {
+        self.bound
+    }
+    fn sent_by(&self) -> SocketAddr {
+        self.bound
+    }
+    fn direction(&self) -> sip_core::transport::Direction {
+        sip_core::transport::Direction::None
+    }
+    async fn send(&self, message: &[u8], target: SocketAddr) -> std::io::Result<()> {
+        let first_of_invite = WireMsg::parse(message).map_or(false, |m| {
+            m.is_request() && m.method() == Some("INVITE") && self.seen.lock().insert(m.via_branch().unwrap_or_default())
+        });
+        self.log.sent.lock().push(Sent { t_ms: self.log.clock.now_ms(), tp: 0xffff, dest: target, bytes: bytes::Bytes::copy_from_slice(message) });
+        if first_of_invite && self.pending_ms > 0 {
+            tokio::time::sleep(std::time::Duration::from_millis(self.pending_ms)).await;
+        }
+        Ok(())
+    }
+}
+
 /// the peer's response number `i` (over all INVITEs of the case) to the INVITE `inv`
 fn response_bytes(inv: &WireMsg, i: usize, r: &RespEv, family: u8) -> Vec<u8> {
     let mut extra = vec![format!("X-Seq: m{i}")];
@@ -875,10 +984,18 @@ pub fn run_app(case: &AppCase) -> Observed {
     let case = case.clone();
     run_world(case.rng as u64, |clock| async move {
         let log = WireLog::new(clock);
-        let (tp, _) = if case.reliable {
-            mock_datagram(&log, "TCP", false, true, "10.0.0.1:5060")
+        let name = if case.reliable { "TCP" } else { "UDP" };
+        let tp = if case.send_pending > 0 {
+            sip_core::transport::TpHandle::new(PendingSendTp {
+                name,
+                reliable: case.reliable,
+                bound: "10.0.0.1:5060".parse().unwrap(),
+                log: log.clone(),
+                pending_ms: case.send_pending,
+                seen: Default::default(),
+            })
         } else {
-            mock_datagram(&log, "UDP", false, false, "10.0.0.1:5060")
+            mock_datagram(&log, name, false, case.reliable, "10.0.0.1:5060").0
         };
         let mut b = offline_builder();
         b.add_unmanaged_transport(tp.clone());
@@ -901,17 +1018,11 @@ pub fn run_app(case: &AppCase) -> Observed {
         let events: Log = Default::default();
         let sessions: Arc<Mutex<Vec<Session>>> = Default::default();
         let held: Arc<Mutex<Vec<Early>>> = Default::default();
-        let invite = initiator.create_invite();
-        if let Err(e) = initiator.send_invite(invite).await {
-            events.lock().push(Event { t_ms: 0, recipient: None, kind: Kind::Error(format!("send: {e}")), marker: None, dialog: None, attempt: 0 });
-            return Observed { events: events.lock().clone(), invite: None, invites: vec![] };
-        }
-        settle().await;
-        let invite_msg = log.snapshot().first().and_then(|s| WireMsg::parse(&s.bytes));
 
         let histories: Vec<Vec<RespEv>> = case.histories().into_iter().cloned().collect();
         let n_total: usize = histories.iter().map(|h| h.len()).sum();
-        // the application tells the peer's script that the next INVITE is out
+        // the application tells the peer's script that it is about to send the next INVITE (the peer sees it on the wire
+        // and answers from then on, whether or not `send_invite` has returned)
         let (resent_tx, mut resent_rx) = tokio::sync::mpsc::unbounded_channel::<()>();
 
         {
@@ -935,6 +1046,12 @@ pub fn run_app(case: &AppCase) -> Observed {
                 // a 3xx-6xx was reported for the current INVITE
                 let mut failed = false;
                 let mut errors = 0usize;
+                // the first INVITE; the peer's script runs while `send_invite` is pending
+                let invite = initiator.create_invite();
+                if let Err(e) = initiator.send_invite(invite).await {
+                    events.lock().push(Event { t_ms: clock.now_ms(), recipient: None, kind: Kind::Error(format!("send: {e}")), marker: None, dialog: None, attempt: 0 });
+                    std::future::pending::<()>().await;
+                }
                 loop {
                     let r = initiator.receive().await;
                     let t_ms = clock.now_ms();
@@ -992,13 +1109,13 @@ pub fn run_app(case: &AppCase) -> Observed {
                     let resend = failed && attempt < further && !app.got_session.load(SeqCst) && (finished || !resend_after_finished);
                     if resend {
                         let invite = initiator.create_invite();
+                        let _ = resent_tx.send(());
                         if let Err(e) = initiator.send_invite(invite).await {
                             events.lock().push(Event { t_ms: clock.now_ms(), recipient: None, kind: Kind::Error(format!("send: {e}")), marker: None, dialog: None, attempt });
                             break;
                         }
                         attempt += 1;
                         failed = false;
-                        let _ = resent_tx.send(());
                     } else if finished {
                         break;
                     }
@@ -1010,7 +1127,13 @@ pub fn run_app(case: &AppCase) -> Observed {
         }
 
         // every busy period / late Early delays the application by at most its own length
-        let slack = case.busy.iter().sum::<u64>() + case.early_lag.iter().sum::<u64>() * histories.len() as u64 + TIMEOUT + 5000;
+        let slack = case.busy.iter().sum::<u64>() + (case.early_lag.iter().sum::<u64>() + case.send_pending) * histories.len() as u64 + TIMEOUT + 5000;
+        // the first INVITE is on the wire (its `send` may still be pending)
+        settle().await;
+        let invite_msg = log.snapshot().first().and_then(|s| WireMsg::parse(&s.bytes));
+        if invite_msg.is_none() {
+            return Observed { events: events.lock().clone(), invite: None, invites: vec![] };
+        }
         let mut t = 0;
         let mut g = 0usize;
         for (k, hist) in histories.iter().enumerate() {
@@ -1082,6 +1205,9 @@ pub fn check(case: &AppCase, out: &mut CaseOut) {
         after_rejected: bool,
         /// its To-tag had an early dialog in an earlier, failed INVITE of this initiator
         reused_tag: bool,
+        /// it was handed to the endpoint while the transport's `send` of the INVITE it answers was still pending
+        /// (`Initiator::send_invite` had not returned yet)
+        during_send: bool,
     }
     /// how the reference saw an INVITE end
     struct AttemptEnd {
@@ -1131,7 +1257,9 @@ pub fn check(case: &AppCase, out: &mut CaseOut) {
         let mut t = (*t_sent).max(prev_last_t);
         // R: the moment from which the application is (again) inside Initiator::receive and the initiator is not waiting
         // for an early dialog
-        let mut ready = (*t_sent, *t_sent);
+        // (`send_invite` returns when the transport's `send` is done; the application polls from then on)
+        let sent_done = *t_sent + case.send_pending;
+        let mut ready = (sent_done, sent_done);
         // a new INVITE: no To-tag is known, no early dialog exists (the failure terminated all of the previous INVITE)
         let mut early: BTreeSet<String> = BTreeSet::new(); // live early dialogs by tag
         let mut early_order: Vec<String> = vec![]; // ... in creation order
@@ -1178,6 +1306,7 @@ pub fn check(case: &AppCase, out: &mut CaseOut) {
             let tag = tag_of(r);
             let after_rejected = tag.as_ref().map_or(false, |x| rejected_tags.contains(x));
             let reused_tag = tag.as_ref().map_or(false, |x| prev_early_tags.contains(x));
+            let during_send = t < sent_done;
             let mk = |at: (u64, u64), recipient: Option<String>, kinds: Vec<Kind>, optional: bool, to_unpolled_early: bool| Want {
                 marker: marker.clone(),
                 t: at,
@@ -1191,6 +1320,7 @@ pub fn check(case: &AppCase, out: &mut CaseOut) {
                 to_unpolled_early,
                 after_rejected,
                 reused_tag,
+                during_send,
             };
             let needs_dialog = (101..300).contains(&r.code) && tag.is_some();
             // handed = Initiator::receive returns this response to the application, which is then busy for busy[i]
@@ -1407,6 +1537,37 @@ pub fn check(case: &AppCase, out: &mut CaseOut) {
     if want.iter().any(|w| asserted(w.idx) && w.t.0 != w.t.1) {
         out.class("delivery-moment-depends-on-early-dialog-queue(interval-accepted)");
     }
+    // -- the transport's send of the INVITE returns late, the peer answers meanwhile
+    if case.send_pending > 0 {
+        out.class("send-of-invite-stays-pending");
+    }
+    let during_send_any = want.iter().any(|w| w.during_send && is_asserted_want(w));
+    {
+        let mut cl: BTreeSet<&'static str> = BTreeSet::new();
+        for w in want.iter().filter(|w| w.during_send && is_asserted_want(w)) {
+            cl.insert(match w.kinds[0] {
+                Kind::Provisional if w.recipient.is_some() => "response-arrived-while-send-of-invite-pending:18x-forwarded-to-early-dialog",
+                Kind::Provisional => "response-arrived-while-send-of-invite-pending:100",
+                Kind::EarlyCreated => "response-arrived-while-send-of-invite-pending:18x-creates-early-dialog",
+                Kind::Session if w.recipient.is_some() => "response-arrived-while-send-of-invite-pending:2xx-through-early-dialog",
+                Kind::Session => "response-arrived-while-send-of-invite-pending:2xx-creates-session",
+                _ => "response-arrived-while-send-of-invite-pending:failure",
+            });
+            if w.attempt > 0 {
+                cl.insert("response-arrived-while-send-of-invite-pending:re-sent-invite");
+            }
+        }
+        if during_send_any {
+            out.class("response-arrived-while-send-of-invite-pending");
+            if want.iter().filter(|w| w.during_send && is_asserted_want(w)).count() >= 2 {
+                out.class("response-arrived-while-send-of-invite-pending:2-or-more");
+            }
+            out.class(if case.reliable { "response-arrived-while-send-of-invite-pending:reliable-transport" } else { "response-arrived-while-send-of-invite-pending:unreliable-transport" });
+        }
+        for c in cl {
+            out.class(c);
+        }
+    }
     // -- a dialog-creating response that cannot create its dialog, and what follows it
     if !rejected_at.is_empty() {
         out.class("dialog-creating-response-without-usable-contact:rejected,application-goes-on");
@@ -1448,7 +1609,7 @@ pub fn check(case: &AppCase, out: &mut CaseOut) {
     for c in shape_classes {
         out.class(c);
     }
-    if tags.len() >= 2 || upgrade || dup_seen || queued_any || to_unpolled_any || after_rejected_any || reused_any {
+    if tags.len() >= 2 || upgrade || dup_seen || queued_any || to_unpolled_any || after_rejected_any || reused_any || during_send_any {
         out.nontrivial(case);
     }
     out.note = Some(format!(
@@ -1460,6 +1621,47 @@ pub fn check(case: &AppCase, out: &mut CaseOut) {
     ));
 
     // ---- compare: each response exactly one recipient, exactly once ----
+    let describe = |w: &Want| {
+        let r = all[w.idx].1;
+        format!(
+            "response {} ({}{}{})",
+            w.marker,
+            r.code,
+            tag_of(r).map(|t| format!(" tag {t}")).unwrap_or_default(),
+            if histories.len() > 1 { format!(", INVITE #{}", w.attempt) } else { String::new() }
+        )
+    };
+    let report_lost = |w: &Want, out: &mut CaseOut| {
+        let locus = match w.kinds[0] {
+            _ if w.polled_after_deadline => "arrived-inside-accepted-window-polled-after-64T1",
+            Kind::Provisional if w.recipient.is_some() => "18x-known-tag-not-forwarded",
+            Kind::Provisional => "100-not-reported",
+            Kind::EarlyCreated => "18x-new-tag-no-early-dialog",
+            Kind::Session if w.recipient.is_some() => "2xx-not-delivered-through-early-dialog",
+            Kind::Session => "2xx-no-session",
+            Kind::Failure => "failure-not-reported",
+            _ => "other",
+        };
+        // the history that makes this response special, if any
+        let ctx = if w.during_send {
+            "arrived-while-send-of-invite-pending:"
+        } else if w.after_rejected {
+            "tag-of-rejected-contactless-response:"
+        } else if w.reused_tag {
+            "tag-of-early-dialog-terminated-by-previous-invite:"
+        } else {
+            ""
+        };
+        let msg = format!("{} (classified at {}..={} ms) was delivered to nobody; events {:?}", describe(w), w.t.0, w.t.1, out.note);
+        out.fail(format!("c13.lost/{ctx}{locus}"), msg);
+    };
+    let delivered = |w: &Want| obs.events.iter().any(|e| e.marker.as_deref() == Some(w.marker.as_str()));
+    // A response that was handed to the endpoint while the send of its INVITE was pending and reached nobody is
+    // reported first: what follows from it (the transaction timing out although the peer answered, later responses of
+    // that fork classified as if they were its first) is a consequence
+    for w in want.iter().filter(|w| w.during_send && is_asserted_want(w) && !delivered(w)) {
+        report_lost(w, out);
+    }
     // an error is accepted only as the report of a response that cannot create its dialog, at the moment that one is classified
     let mut rejected_open = rejected_at.clone();
     for e in &obs.events {
@@ -1483,34 +1685,11 @@ pub fn check(case: &AppCase, out: &mut CaseOut) {
         }
         let got: Vec<&Event> = obs.events.iter().filter(|e| e.marker.as_deref() == Some(w.marker.as_str())).collect();
         let r = all[w.idx].1;
-        let what = format!(
-            "response {} ({}{}{})",
-            w.marker,
-            r.code,
-            tag_of(r).map(|t| format!(" tag {t}")).unwrap_or_default(),
-            if histories.len() > 1 { format!(", INVITE #{}", w.attempt) } else { String::new() }
-        );
+        let what = describe(w);
         if got.is_empty() {
-            if !w.optional {
-                let locus = match w.kinds[0] {
-                    _ if w.polled_after_deadline => "arrived-inside-accepted-window-polled-after-64T1",
-                    Kind::Provisional if w.recipient.is_some() => "18x-known-tag-not-forwarded",
-                    Kind::Provisional => "100-not-reported",
-                    Kind::EarlyCreated => "18x-new-tag-no-early-dialog",
-                    Kind::Session if w.recipient.is_some() => "2xx-not-delivered-through-early-dialog",
-                    Kind::Session => "2xx-no-session",
-                    Kind::Failure => "failure-not-reported",
-                    _ => "other",
-                };
-                // the history that makes this To-tag special, if any
-                let ctx = if w.after_rejected {
-                    "tag-of-rejected-contactless-response:"
-                } else if w.reused_tag {
-                    "tag-of-early-dialog-terminated-by-previous-invite:"
-                } else {
-                    ""
-                };
-                out.fail(format!("c13.lost/{ctx}{locus}"), format!("{what} (classified at {}..={} ms) was delivered to nobody; events {:?}", w.t.0, w.t.1, out.note));
+            // (those that arrived while the send of their INVITE was pending were reported above)
+            if !w.optional && !w.during_send {
+                report_lost(w, out);
             }
             continue;
         }
@@ -1644,7 +1823,7 @@ pub fn property() -> Property {
     Property {
         fuzz: vec![],
         id: "C13",
-        rule: "a case = history of 1..10 responses to an INVITE sent through Initiator (status from {100,180,183,199,200,202,300,404,486,603}, To-tag none / 3 forks, Contact present 93% / absent 6% / unparsable 1%, 0..3 Record-Route, Supported timer/100rel, Require+RSeq, Session-Expires) at gaps 1..31000 ms under a paused clock (random cases: 6/15 such, 2/15 chatty = 6..14 responses, mostly 101-199 of fork 0, gaps 1..450 ms, 2/15 shaky = 2..8 responses mostly 101-299 of forks 0/1 with Contact absent 35% / unparsable 10%, 5/15 retry = 1..2 INVITEs that fail (0..3 responses mostly 101-199 with To-tag, then a 3xx-6xx, 10% a straggler behind it) followed by an INVITE with a general or shaky history of 1..6) x the transport (UDP / one reporting itself reliable, a third of the random cases) x the spelling of the fork To-tags (plain; differing only in letter case; prefixes of each other; one punctuation character; 40 characters differing in the last; numeric look-alikes) x the application's polling schedule (after being handed response i it does not call Initiator::receive for busy[i] in {0,3,40,600,2530,31600,33010,40020} ms; half of the random cases poll continuously) x the application's schedule for the early dialogs (it first calls Early::receive on the Early of fork j early_lag[j] in {0,7,613,2537,33017,70003} ms after being handed it, then polls it continuously and lets go of it when it yields a session or Terminated; non-zero for some fork in ~45% of the random cases; meanwhile forwarded events pile up for that early dialog) x the application's reaction to an error from Initiator::receive (calls receive again at once, 85% of the random cases, or gives up) x the number of INVITEs sent through the same Initiator (after a reported failure without session the application calls create_invite + send_invite again, right after the failure or after Finished; the peer answers every INVITE with its own history and re-uses its To-tags; terminated Early objects dropped or kept unpolled). exhaustive: every history of length <= 4 (thorough 5) over {100,180,200,486} x {no tag,#0,#1}, plain tags, UDP, continuous polling. exhaustive-variants: every such history of length <= 3 (thorough 4) under case-variant tags, prefix tags, 33 s busy after every / the first / the second response, 600 ms busy after every response, reliable transport, every Early polled 33 s late, reliable + 600 ms busy + every Early 613 ms late. lazy-early: 180 of fork 0 + k = 0..8 (thorough 12) further 101-199 of fork 0 + one of 7 endings x 5 early_lag vectors x gaps 1/450 ms x both transports. retry: first INVITE = one of 6 preludes of 0..2 provisional responses + 486 without tag / 404 of fork 0, second INVITE = every history of length <= 2 (thorough 3) over the alphabet, x 5 application variants (resend at once / after Finished, terminated Early dropped / kept, every Early polled 33 s late, reliable + 600 ms busy); plus two failed INVITEs before the enumerated history. rejected-then-same-fork: one of 3 preludes + a fork-0 response that cannot create its dialog (180 without Contact, 183 with unparsable Contact, 200 without Contact) + every continuation of length <= 2 (thorough 3) over the alphabet plus a Contact-less 180 of fork 0, x 3 application variants, application going on after the error. Oracle = reference classifier over the set of tags seen so far IN THIS INVITE and the application's ready time (FIFO queue: a response is classified at max(arrival, next poll); what is forwarded to an early dialog comes out of its Early at max(that, first poll of the Early); while an Early is not polled yet the initiator may or may not wait for it when forwarding, later moments are intervals and any delivery inside is accepted; a response that could not create its dialog leaves its tag unknown; a new INVITE starts with no tag known); every response carries a unique X-Seq marker and every recipient the number of its INVITE, so recipients are identified exactly. Non-trivial = >=2 distinct To-tags, or a 2xx after an 18x of the same tag, or a response for a tag that already has a session, or a response that waited in the queue while the application was busy, or a response forwarded to an early dialog the application had not started to poll, or an asserted response whose To-tag was carried by a rejected Contact-less response before, or an asserted response to a re-sent INVITE whose To-tag had an early dialog in a previous INVITE; distinct by case.",
+        rule: "a case = history of 1..10 responses to an INVITE sent through Initiator (status from {100,180,183,199,200,202,300,404,486,603}, To-tag none / 3 forks, Contact present 93% / absent 6% / unparsable 1%, 0..3 Record-Route, Supported timer/100rel, Require+RSeq, Session-Expires) at gaps 1..31000 ms under a paused clock (random cases: 6/15 such, 2/15 chatty = 6..14 responses, mostly 101-199 of fork 0, gaps 1..450 ms, 2/15 shaky = 2..8 responses mostly 101-299 of forks 0/1 with Contact absent 35% / unparsable 10%, 5/15 retry = 1..2 INVITEs that fail (0..3 responses mostly 101-199 with To-tag, then a 3xx-6xx, 10% a straggler behind it) followed by an INVITE with a general or shaky history of 1..6) x the transport (UDP / one reporting itself reliable, a third of the random cases) x the spelling of the fork To-tags (plain; differing only in letter case; prefixes of each other; one punctuation character; 40 characters differing in the last; numeric look-alikes) x the application's polling schedule (after being handed response i it does not call Initiator::receive for busy[i] in {0,3,40,600,2530,31600,33010,40020} ms; half of the random cases poll continuously) x the application's schedule for the early dialogs (it first calls Early::receive on the Early of fork j early_lag[j] in {0,7,613,2537,33017,70003} ms after being handed it, then polls it continuously and lets go of it when it yields a session or Terminated; non-zero for some fork in ~45% of the random cases; meanwhile forwarded events pile up for that early dialog) x the application's reaction to an error from Initiator::receive (calls receive again at once, 85% of the random cases, or gives up) x the number of INVITEs sent through the same Initiator (after a reported failure without session the application calls create_invite + send_invite again, right after the failure or after Finished; the peer answers every INVITE with its own history and re-uses its To-tags; terminated Early objects dropped or kept unpolled) x how long the transport's send of the first transmission of every INVITE stays pending after the bytes are out (send_pending in {0 (60% of the random cases),2,30,470,1203} ms: send_invite returns that late, the peer's gaps count from the bytes being out, so responses with a cumulative gap below it reach the endpoint while send_invite has not returned; the application polls as soon as it has). exhaustive: every history of length <= 4 (thorough 5) over {100,180,200,486} x {no tag,#0,#1}, plain tags, UDP, continuous polling. exhaustive-variants: every such history of length <= 3 (thorough 4) under case-variant tags, prefix tags, 33 s busy after every / the first / the second response, 600 ms busy after every response, reliable transport, every Early polled 33 s late, reliable + 600 ms busy + every Early 613 ms late. lazy-early: 180 of fork 0 + k = 0..8 (thorough 12) further 101-199 of fork 0 + one of 7 endings x 5 early_lag vectors x gaps 1/450 ms x both transports. retry: first INVITE = one of 6 preludes of 0..2 provisional responses + 486 without tag / 404 of fork 0, second INVITE = every history of length <= 2 (thorough 3) over the alphabet, x 5 application variants (resend at once / after Finished, terminated Early dropped / kept, every Early polled 33 s late, reliable + 600 ms busy); plus two failed INVITEs before the enumerated history. rejected-then-same-fork: one of 3 preludes + a fork-0 response that cannot create its dialog (180 without Contact, 183 with unparsable Contact, 200 without Contact) + every continuation of length <= 2 (thorough 3) over the alphabet plus a Contact-less 180 of fork 0, x 3 application variants, application going on after the error. answered-while-sending: every history of length <= 3 (thorough 4) over the alphabet x (send pending 2 ms UDP, 30 ms UDP, 30 ms reliable, 470 ms reliable + 600 ms busy after every response); retry has a sixth variant with every INVITE's send pending 30 ms. Oracle = reference classifier over the set of tags seen so far IN THIS INVITE and the application's ready time (initially the return of send_invite = INVITE on the wire + send_pending; FIFO queue: a response is classified at max(arrival, next poll); what is forwarded to an early dialog comes out of its Early at max(that, first poll of the Early); while an Early is not polled yet the initiator may or may not wait for it when forwarding, later moments are intervals and any delivery inside is accepted; a response that could not create its dialog leaves its tag unknown; a new INVITE starts with no tag known); every response carries a unique X-Seq marker and every recipient the number of its INVITE, so recipients are identified exactly. Non-trivial = >=2 distinct To-tags, or a 2xx after an 18x of the same tag, or a response for a tag that already has a session, or a response that waited in the queue while the application was busy, or a response forwarded to an early dialog the application had not started to poll, or an asserted response whose To-tag was carried by a rejected Contact-less response before, or an asserted response to a re-sent INVITE whose To-tag had an early dialog in a previous INVITE, or an asserted response that arrived while the send of its INVITE was pending; distinct by case.",
         assumptions: vec![
             "what the application sees for a response whose tag already has a session (retransmitted 2xx, late 18x) is not asserted beyond: delivered at most once, no second dialog, nothing panics, later responses are still classified; if the application is busy after such a response nothing after it is asserted (the reference cannot know whether it was handed over)",
             "a dialog-creating response (101-299, new To-tag) without usable Contact is malformed: Initiator::receive may report an error for it or ignore it; if it handed out nothing for it, nothing was created and the To-tag counts as unknown for the following responses (asserted when the application goes on polling); if it handed out an early dialog / session all the same, if the tag already has a session, or if the application gives up at the error, nothing is asserted from there on",
@@ -1655,15 +1834,17 @@ pub fn property() -> Property {
             "To-tags are opaque tokens compared byte-wise; '%' in tags is excluded (open finding of C09/C11)",
             "an Early is polled continuously from the application's first poll of it on (early_lag after it was handed over) and is let go of only when it yielded a session or Terminated (then it is dropped, or kept without ever being polled again); how many events the queue between initiator and early dialog holds is not part of the statement: whether the initiator waits for a not yet polled Early when forwarding to it is accepted either way (delivery moments are intervals), only loss / duplication / a wrong recipient are violations",
             "the transport's reliability changes nothing in the expected classification or in the 64*T1 completion (RFC 6026 7.2: the Accepted state collects the 2xx of other forks on every transport)",
+            "a transport may report the write of a request as done after the peer has received and answered it (Transport::send is async; nothing in its contract orders its return before incoming traffic): a response to an INVITE whose bytes are on the wire is a response to that INVITE whether or not send_invite has returned, 'no response is lost' covers it; it is expected at the application's first poll after send_invite returned. Only the first transmission of an INVITE is slow; retransmissions and ACKs written from inside receive() return at once (their duration would shift every predicted moment and is not C13's subject), an arrival exactly at the moment send returns is classified the same either way",
             "an Initiator may be used for a further INVITE once the previous one was reported failed and yielded no session (examples/send_invite.rs); the failure terminated every early dialog, so every To-tag is new for the next INVITE even if the UAS re-uses it; the moment the next INVITE goes out is read from the wire log; a further INVITE after a session or before a final response is not generated; responses to the previous INVITE that arrive after its failure must not surface",
         ],
-        explanation: "exhaustive over the reduced alphabet up to the stated length (plain/UDP/continuous, and per listed variant one step shorter); the lazy-early, retry and rejected-then-same-fork grids are enumerated completely; random histories, tag spellings, transports, polling schedules (initiator and early dialogs), reaction to errors and re-sent INVITEs sampled",
+        explanation: "exhaustive over the reduced alphabet up to the stated length (plain/UDP/continuous, and per listed variant one step shorter); the lazy-early, retry, rejected-then-same-fork and answered-while-sending grids are enumerated completely; random histories, tag spellings, transports, polling schedules (initiator and early dialogs), reaction to errors, re-sent INVITEs and the duration of the INVITE's send sampled",
         subs: vec![
             enum_sub("exhaustive", exhaustive_cases, check),
             enum_sub("exhaustive-variants", variant_cases, check),
             enum_sub("lazy-early", lazy_early_cases, check),
             enum_sub("retry", retry_cases, check),
             enum_sub("rejected-then-same-fork", rejected_cases, check),
+            enum_sub("answered-while-sending", during_send_cases, check),
             prop_sub("random", strategy, 1600, 26000, check),
         ],
     }
